@@ -293,9 +293,24 @@ def unit_slot_init(ctx):
         abs_ = sc.build(P)
         for m, a in abs_.items():
             _log(ctx, "AmbientSlot::%s abstraction: %s" % (m, a.stats()))
+        nat_box = {}
+
+        def native_for():
+            if "n" not in nat_box:
+                nat_box["n"] = u.native("slot", [("core", ["std"], False)])
+            return nat_box["n"]
+
+        gen, classes = sc.generalised_obligations(P, abs_, os.path.join(u.dir, "classes"), native_for, 3)
+        if classes is not None:
+            _log(ctx, "AmbientSlot::init path classes over the OnceLock: %s" % "; ".join(sc.describe_classes(classes)))
+        shape = sorted(set(tuple(k for k, _ in c["ops"]) for c in classes)) if classes else []
         obs = sc.structural(P, abs_)
-        n = 3 if ctx.tier == "quick" else 3
-        obs.append(sc.interleaving_obligation(n, n))
+        if classes is not None and shape != [("set",), ("set", "get")]:
+            # the shape-specific structural obligation only applies to `set; get`: the generalised pair below replaces it
+            obs = [o for o in obs if o.name != "E2cfg_init_one_set_then_get"]
+        else:
+            obs.append(sc.interleaving_obligation(3, 3))
+        obs += gen
         cfg_driver.decide_cfg(ctx, obs, u.dir, jobs=_jobs())
     except (engine.EngineError, Unsupported, Inconclusive) as e:
         _cfg_fail(ctx, "E2cfg_slot_init", "E2-cfg slot unit: %s" % e)
